@@ -6,6 +6,7 @@ import (
 	"encoding/json"
 	"fmt"
 	"io"
+	"net"
 	"net/http"
 	"net/http/httptest"
 	"net/url"
@@ -16,6 +17,7 @@ import (
 	"strings"
 	"sync"
 	"testing"
+	"time"
 
 	"golang.org/x/net/http2"
 	"golang.org/x/net/http2/h2c"
@@ -39,7 +41,7 @@ import (
 // eager attack is whatever the real clock allowed).
 
 func init() {
-	for _, p := range []string{"C14", "C18"} {
+	for _, p := range []string{"C06", "C14", "C18"} {
 		p := p
 		simScenarios["attackcmd-"+p] = func(t *testing.T, cfg *simrt.Config) simrt.RunFn {
 			return func(tape *simrt.Tape, keep bool) simrt.Outcome { return runAttackCmd(tape, keep, p) }
@@ -62,6 +64,39 @@ var (
 	acMu      sync.Mutex
 	acLog     []acSeen
 )
+
+// acUpgradeAddr is a bare TCP server that answers every request with "101 Switching Protocols" and then keeps
+// the connection open, as a websocket endpoint does.
+var acUpgradeAddr string
+
+func acEnsureUpgradeServer() {
+	if acUpgradeAddr != "" {
+		return
+	}
+	ln, err := net.Listen("tcp", "127.0.0.1:0")
+	if err != nil {
+		fmt.Println("INFRA:", err)
+		os.Exit(2)
+	}
+	acUpgradeAddr = ln.Addr().String()
+	simCleanups = append(simCleanups, func() { ln.Close() })
+	go func() {
+		for {
+			c, err := ln.Accept()
+			if err != nil {
+				return
+			}
+			go func(c net.Conn) {
+				defer c.Close()
+				buf := make([]byte, 4096)
+				c.Read(buf)
+				c.Write([]byte("HTTP/1.1 101 Switching Protocols\r\nUpgrade: websocket\r\nConnection: Upgrade\r\n\r\n"))
+				c.SetReadDeadline(time.Now().Add(60 * time.Second))
+				c.Read(buf) // hold the connection until the client goes away
+			}(c)
+		}
+	}()
+}
 
 func acEnsureServers() {
 	if acServers[0] != nil {
@@ -134,6 +169,13 @@ func runAttackCmd(t *simrt.Tape, keep bool, prop string) simrt.Outcome {
 			g.bodyF = filepath.Join(dir, fmt.Sprintf("ac-body%d.bin", k))
 			os.WriteFile(g.bodyF, g.body, 0o644)
 		}
+	}
+	upgradeAt := -1
+	if prop == "C06" {
+		// one target is a websocket-like endpoint: the response is 101 and the connection stays open
+		acEnsureUpgradeServer()
+		upgradeAt = t.Choose(n)
+		tg[upgradeAt] = acTarget{method: "GET", url: "http://" + acUpgradeAddr + "/ws"}
 	}
 	var defHdr [][2]string
 	for j, nd := 0, t.Biased(4, 1, 2); j < nd; j++ {
@@ -223,7 +265,7 @@ func runAttackCmd(t *simrt.Tape, keep bool, prop string) simrt.Outcome {
 	if t.Prob(1, 4) {
 		groups = append(groups, []string{"-chunked"})
 	}
-	useH2C := t.Prob(1, 4)
+	useH2C := t.Prob(1, 4) && prop != "C06" // the bare 101 endpoint speaks HTTP/1.1 only
 	if useH2C {
 		// HTTP/2 without TLS: one connection carries all requests; the address mapping and the DNS cache apply to
 		// its dial all the same
@@ -267,7 +309,10 @@ func runAttackCmd(t *simrt.Tape, keep bool, prop string) simrt.Outcome {
 	acLog = acLog[:0]
 	acMu.Unlock()
 	var err error
-	func() {
+	cmdline := "vegeta attack " + strings.Join(args, " ")
+	finished := make(chan struct{})
+	go func() {
+		defer close(finished)
 		defer func() {
 			if pv := recover(); pv != nil {
 				err = fmt.Errorf("panic: %v", pv)
@@ -275,7 +320,13 @@ func runAttackCmd(t *simrt.Tape, keep bool, prop string) simrt.Outcome {
 		}()
 		err = attackCmd().fn(args)
 	}()
-	cmdline := "vegeta attack " + strings.Join(args, " ")
+	select {
+	case <-finished:
+	case <-time.After(20 * time.Second):
+		// -timeout=5s bounds every exchange, the attack itself lasts well under a second
+		r.fail(prop+".cmd-never-ends", map[string]string{"nominimise": "1"}, "%s: the command has not returned 20 s after it was started (request timeout 5s): a hit never yields its result", cmdline)
+		return r.outcome(nil, true)
+	}
 	if err != nil {
 		r.fail(prop+".cmd-error", nil, "%s failed: %v", cmdline, err)
 		return r.outcome(nil, true)
@@ -343,6 +394,13 @@ func runAttackCmd(t *simrt.Tape, keep bool, prop string) simrt.Outcome {
 		}
 		g := tg[k%n]
 		hits++
+		if k%n == upgradeAt {
+			// the exchange completed with status 101: that is what the result must say
+			if res.Code != 101 || res.Error == "" || res.Method != g.method || res.URL != g.url {
+				r.fail("C06.cmd-upgrade-result", nil, "%s: hit %d went to an endpoint that answers 101 Switching Protocols; its result says code %d, error %q, %s %s", cmdline, k, res.Code, res.Error, res.Method, res.URL)
+			}
+			continue
+		}
 		if res.Error != "" {
 			r.fail(prop+".cmd-hit-error", nil, "%s: hit %d (%s %s) failed: %s", cmdline, k, g.method, g.url, res.Error)
 			continue
